@@ -17,10 +17,30 @@ pub fn format(case: &DocCase, text: &str) -> String {
             lib.insert("doc".into(), text.to_string());
             api::format_library(&lib, &case.ext).remove("doc").unwrap_or_default()
         }
-        _ => {
+        2 => {
             let mut lib = api::Lib::new();
             lib.insert("doc".into(), case.prev.clone());
             api::format_via_update(&lib, "doc", text, &case.ext)
+        }
+        _ => {
+            // the language server: textDocument/formatting on a served note, edit applied
+            let mut lib = api::Lib::new();
+            lib.insert("doc".into(), text.to_string());
+            let mut srv = crate::drive::lsp::Server::start(&lib, &case.ext, false, "");
+            let answer = srv.formatting("doc");
+            let out = match answer.value() {
+                Some(v) => match v.get(0).and_then(|e| e.get("newText")).and_then(|t| t.as_str()) {
+                    Some(t) => t.to_string(),
+                    // no edit: the note is already in its normal form
+                    None => text.to_string(),
+                },
+                None => {
+                    srv.kill();
+                    panic!("textDocument/formatting was not answered with a result: {:?}", answer);
+                }
+            };
+            let _ = srv.shutdown();
+            out
         }
     }
 }
@@ -31,7 +51,7 @@ impl Property for C02 {
         "C02"
     }
     fn rule(&self) -> String {
-        "documents generated from a block/inline grammar (G-DOC) with randomised presentation, x both refs_extension settings x three doors (from_markdown/to_markdown, import/export, update_key over an older version); oracle f(f(x)) == f(x) byte-for-byte and f(f(f(x))) == f(f(x)); non-trivial = f(x) != x and the input scans to >= 3 blocks; distinct = SHA-256 of the case".into()
+        "documents generated from a block/inline grammar (G-DOC) with randomised presentation, x both refs_extension settings x four doors (from_markdown/to_markdown, import/export, update_key over an older version, textDocument/formatting of the served note); oracle f(f(x)) == f(x) byte-for-byte and f(f(f(x))) == f(f(x)); non-trivial = f(x) != x and the input scans to >= 3 blocks; distinct = SHA-256 of the case".into()
     }
     fn assumptions(&self) -> Vec<String> {
         vec!["pure metamorphic oracle: no parser involved in the verdict; the independent scanner is used only to classify a failure".into()]
@@ -47,7 +67,7 @@ impl Property for C02 {
         vec!["item_first_list", "item_first_heading", "empty_item"]
     }
     fn strategy(&self, features: &Features, _tier: Tier) -> BoxedStrategy<DocCase> {
-        doc_case(features, 7, 3)
+        doc_case(features, 7, 4)
     }
     fn check(&self, case: &DocCase, stats: &mut Stats) -> Verdict {
         let y1 = format(case, &case.text);
